@@ -67,18 +67,12 @@ Example xmr_table_rows : exists e, nth_error xmr_block_enc_lens xmr_block_dec_ma
 Proof. exact XmrConstsOk.xmr_table_rows. Qed.
 Print Assumptions xmr_table_rows.
 
-(* [Codecs.xmr_decode] is the decoder with the block-value check (a block whose Base58 value does not fit
-   its byte width is a ValueError) -- the behaviour the format demands and the announced repair of defect
-   F2; [Codecs.xmr_decode_current] is the code as it is today. *)
+(* [Codecs.xmr_decode] includes the block-value check of __UnPad (a block whose Base58 value does not fit
+   its byte width is a ValueError; repair of defect F2). *)
 Theorem xmr_decode_encode : forall b, bytes_ok b ->
   exists s, Codecs.xmr_encode b = Ok s /\ Codecs.xmr_decode s = Ok b.
 Proof. exact XmrConstsOk.xmr_decode_encode. Qed.
 Print Assumptions xmr_decode_encode.
-
-Theorem xmr_decode_current_encode : forall b, bytes_ok b ->
-  exists s, Codecs.xmr_encode b = Ok s /\ Codecs.xmr_decode_current s = Ok b.
-Proof. exact XmrConstsOk.xmr_decode_current_encode. Qed.
-Print Assumptions xmr_decode_current_encode.
 
 (* canonicity: every accepted string is the standard encoding of what it decodes to ... *)
 Theorem xmr_encode_decode : forall s b, Codecs.xmr_decode s = Ok b -> Codecs.xmr_encode b = Ok s /\ bytes_ok b.
@@ -107,28 +101,13 @@ Theorem xmr_block_dec_length : forall s d e dec, nth_error xmr_block_enc_lens d 
 Proof. exact XmrConstsOk.xmr_block_dec_length. Qed.
 Print Assumptions xmr_block_dec_length.
 
-(* The current code.  Full-strength canonicity  [forall s b, decode_current s = Ok b -> encode b = Ok s]
-   is FALSE (defect F2, property C10); the checked decoder rejects the witness. *)
-Theorem xmr_current_canonical_refuted :
-  exists s b, Codecs.xmr_decode_current s = Ok b /\ Codecs.xmr_encode b <> Ok s.
-Proof. exact XmrConstsOk.xmr_current_canonical_refuted. Qed.
-Print Assumptions xmr_current_canonical_refuted.
+(* overflowing blocks (the former defect F2) are rejected *)
+Theorem xmr_overflow_rejected :
+  Codecs.xmr_decode [122; 122] = Err ValueError /\ Codecs.xmr_decode (repeat 122 11) = Err ValueError.
+Proof. exact XmrConstsOk.xmr_overflow_rejected. Qed.
+Print Assumptions xmr_overflow_rejected.
 
-Theorem xmr_current_differs :
-  exists s b, Codecs.xmr_decode_current s = Ok b /\ Codecs.xmr_decode s = Err ValueError.
-Proof. exact XmrConstsOk.xmr_current_differs. Qed.
-Print Assumptions xmr_current_differs.
-
-(* what does hold of the current code: it agrees with the checked decoder wherever that accepts, it fails
-   only with ValueError, and block by block it is canonical exactly when the value fits *)
-Theorem xmr_decode_current_of : forall s b, Codecs.xmr_decode s = Ok b -> Codecs.xmr_decode_current s = Ok b.
-Proof. exact XmrConstsOk.xmr_decode_current_of. Qed.
-Print Assumptions xmr_decode_current_of.
-
-Theorem xmr_decode_current_err : forall s e, Codecs.xmr_decode_current s = Err e -> e = ValueError.
-Proof. exact XmrConstsOk.xmr_decode_current_err. Qed.
-Print Assumptions xmr_decode_current_err.
-
+(* block by block: an accepted block string re-encodes to itself iff its value fits the bytes kept *)
 Theorem xmr_block_canonical_iff : forall s d e dec v,
   nth_error xmr_block_enc_lens d = Some e -> length s = e ->
   Codecs.xmr_b58dec s = Ok dec -> Codecs.xmr_block_value s = Ok v ->
